@@ -3,6 +3,14 @@
 import json, subprocess
 
 CHECKS = {
+ "C05": ("property-based testing: type-directed program generation x generated inputs/witnesses, differential against a width-free big-step evaluator; metamorphic wrappers",
+         "Exploration with a reference model (model::eval over value trees, model::jets for 240+ Core jets, model::cmr for the root passed by disconnect): verdict, failure kind (with hidden root) and output value of every run must equal the semantics; each run is repeated under three wrappers that move the program to unaligned offsets and reused frames.",
+         "Trusted: model::eval/model::jets/model::cmr/model::layout, the IR-first generator (each reachable IR node is materialised exactly once in a fresh context). Jet names and type names are read from the crate's tables (checked against C by C14). Only Core jets with a functional model are generated; others are covered differentially by C06.",
+         "DESIGN.md §6 C05"),
+ "C07": ("property-based testing with an instrumentation hook: generated programs and deep comp nests executed on generated inputs; invariant over the machine's high-water marks; directed type-bomb refusal cases",
+         "Exploration of an invariant: after every execution (incl. failing ones) max live cells <= width(src)+width(tgt)+extra_cells and max live frames <= extra_frames+2 (hook verif_high_water), no index panic / debug assertion (debug assertions are compiled in); programs with a 2^46..2^70-bit middle type must be refused by BitMachine::for_program. Bounds are observed to be tight on ~25% of cases, so an off-by-one in a formula is visible.",
+         "Trusted: the verif-hooks instrumentation (3 added statements in new_write_frame), the generators. The refusal threshold (2^45 cells) is far above MAX_CELLS so that a legitimate change of the limit cannot raise an alarm.",
+         "DESIGN.md §6 C07"),
  "C10": ("property-based testing over generated types x values x production histories, against a width-free tree model of the two bit layouts",
          "Exploration with a reference model (model::layout): every generated (type, value) is materialised through a drawn API history and compared bit-by-bit with the definition of the padded and compact layouts; decoders are checked for exact consumption, accessors/constructors for inversion on every sub-value, prune for the modelled projection (smaller, equal, incompatible targets; two-step = one-step).",
          "Trusted: model::layout (written from the layout definition, unit-tested), G-ty/G-val generators. For targets that are incompatible only off the taken path the oracle accepts None or a well-formed value of exactly the target type (DESIGN §6 C10 soundness note). Widths are capped at 4096 (quick) / 65536 (thorough) bits for cost only.",
